@@ -11,6 +11,9 @@ var _html5entitiesMap map[string]*HTML5Entity
 
 func buildHTML5Entities() {
 	_html5entitiesOnce.Do(func() {
+		if verifOn {
+			verifEmit("EntInitEnter")
+		}
 		entities := make([]HTML5Entity, _html5entitiesLength)
 		_html5entitiesMap = make(map[string]*HTML5Entity, _html5entitiesLength)
 
@@ -28,6 +31,9 @@ func buildHTML5Entities() {
 
 			cName = tName
 			cCharacters = tCharacters
+		}
+		if verifOn {
+			verifEmit("EntInitDone")
 		}
 	})
 }
